@@ -15,6 +15,9 @@ type bcase struct {
 	Class string `json:"class"`
 	Param string `json:"param"`
 	B     []byte `json:"b"`
+	// Roots (DER) are trusted while the case runs (replays carry them: the pool of the crash monitor is built from the
+	// roots of the corpus' generated quotes)
+	Roots [][]byte `json:"roots,omitempty"`
 }
 
 // sizeField describes one size / type field of the wire format inside a concrete quote.
@@ -97,8 +100,11 @@ func validQuotes(x *mon.Ctx, n int) [][]byte {
 	var out [][]byte
 	for i := 0; i < n; i++ {
 		r := x.Rand(fmt.Sprint("valid", i))
-		w := world.Honest(r, world.HonestOpts{Shape: world.QuoteShape{AuthLen: []int{32, 0, 5, 200}[i%4], ExtraLen: []int{0, 9, 0, 100}[i%4], TrailingNul: i%2 == 0}})
+		w := world.Honest(r, world.HonestOpts{Shape: world.QuoteShape{AuthLen: []int{32, 0, 33, 200, 5, 64, 4096, 65535}[i%8], ExtraLen: []int{0, 9, 0, 100}[i%4], TrailingNul: i%2 == 0}})
 		out = append(out, w.Q.Bytes())
+		corpusRoots.Lock()
+		corpusRoots.certs = append(corpusRoots.certs, w.PKI.Root.Cert)
+		corpusRoots.Unlock()
 	}
 	out = append(out, append([]byte(nil), intelSprE4...), append([]byte(nil), intelCos113...))
 	return out
@@ -107,8 +113,8 @@ func validQuotes(x *mon.Ctx, n int) [][]byte {
 // byteCorpus is the shared hostile byte-string corpus of C09 and C10.
 func byteCorpus(x *mon.Ctx) []bcase {
 	var out []bcase
-	add := func(class, param string, b []byte) { out = append(out, bcase{class, param, b}) }
-	valid := validQuotes(x, x.Pick(2, 6))
+	add := func(class, param string, b []byte) { out = append(out, bcase{Class: class, Param: param, B: b}) }
+	valid := validQuotes(x, x.Pick(4, 8))
 
 	for vi, v := range valid {
 		add("valid", fmt.Sprint(vi), v)
